@@ -234,7 +234,7 @@ func (g *dgen) bodyType(depth int) *spec.Attr {
 		if len(g.d.Types) > 0 && t.Draw("reuse-type", 2) == 0 {
 			var plain []*spec.UserType
 			for _, u := range g.d.Types {
-				if !u.IsResult && !u.IsError {
+				if !u.IsResult && !u.IsError && !u.NoReuse {
 					plain = append(plain, u)
 				}
 			}
@@ -539,6 +539,26 @@ func (g *dgen) defaultFor(f *spec.Attr, kind string) any {
 	return nil
 }
 
+// aliasWithDefault may turn a primitive result attribute into one whose type is a named primitive that declares the
+// default itself (Type("Tier", String, func() { Default("basic") })): the attribute declares none and takes it over.
+func (g *dgen) aliasWithDefault(f *spec.Attr) *spec.Attr {
+	k := f.Type.Kind
+	if !spec.IsPrimitive(k) || k == spec.Bytes || k == spec.Any || g.t.Draw("alias-level-default", 8) != 0 {
+		return nil
+	}
+	dv := g.defaultFor(f, k)
+	if dv == nil {
+		return nil
+	}
+	g.seq++
+	base := *f
+	base.Name, base.Default, base.HasDef = "", dv, true
+	u := &spec.UserType{Name: fmt.Sprintf("D%dAlias", g.seq), Attr: &base, NoReuse: true}
+	g.d.Types = append(g.d.Types, u)
+	g.feat("default:alias-level")
+	return &spec.Attr{Type: &spec.Type{Kind: spec.User, Name: u.Name}, Default: dv, HasDef: true, DefFromAlias: true}
+}
+
 func sortedAttrNames(m map[string]string) []string {
 	ks := make([]string, 0, len(m))
 	for k := range m {
@@ -826,7 +846,12 @@ func (g *dgen) method(svc *spec.Service, idx int) *spec.Method {
 			case 1:
 				f = g.prim(LocHeader)
 				f.Name = name
-				g.requiredOrDefault(f)
+				if af := g.aliasWithDefault(f); af != nil {
+					f = af
+					f.Name = name
+				} else {
+					g.requiredOrDefault(f)
+				}
 				resp.Headers[name] = "X-R-" + []string{"Foo", "Bar-Baz", "Z"}[t.Draw("hname", 3)] + fmt.Sprint(i)
 				g.feat("rloc:header")
 			case 2:
@@ -839,7 +864,12 @@ func (g *dgen) method(svc *spec.Service, idx int) *spec.Method {
 			default:
 				f = g.bodyType(2 + t.Pick("deep-body", 3, 1)) // one body attribute in four may nest one level deeper (arrays of arrays of types, ...)
 				f.Name = name
-				g.requiredOrDefault(f)
+				if af := g.aliasWithDefault(f); af != nil {
+					f = af
+					f.Name = name
+				} else {
+					g.requiredOrDefault(f)
+				}
 				g.feat("rloc:body")
 			}
 			r.Fields = append(r.Fields, f)
